@@ -42,6 +42,8 @@ def main():
         seed = 1
     t0 = time.time()
     os.chdir(VERIF)
+    work = os.path.join(VERIF, ".work", "r%d" % os.getpid())
+    os.environ["PBT_WORK"] = work
     core.silence_fds()
     try:
         core.setup_artap_path()
@@ -210,7 +212,7 @@ def main():
     ev = {"property_id": prop, "tier": tier, "seed": seed, "level": mod.LEVEL, "coverage": coverage,
           "assumptions": list(mod.ASSUMPTIONS), "wall_s": round(time.time() - t0, 2), "violations": len(vio_records)}
     os.makedirs(os.path.join(VERIF, "evidence"), exist_ok=True)
-    if not args.clause:
+    if not args.clause and not os.environ.get("PBT_NO_EVIDENCE"):
         with open(os.path.join(VERIF, "evidence", "%s.json" % prop), "w") as f:
             json.dump(ev, f, indent=1, default=core._json_default)
 
@@ -221,7 +223,7 @@ def main():
     for name, p in per.items():
         core.real_print("   %-28s n=%-7d nt=%-7d %s" % (name, p["evaluations"], len(p["nt"]),
                                                      json.dumps(dict(sorted(p["classes"].items())))[:300]))
-    shutil.rmtree(os.path.join(VERIF, ".work"), ignore_errors=True)
+    shutil.rmtree(work, ignore_errors=True)
     if vio_records:
         return 1
     if errors:
